@@ -6,5 +6,6 @@ let table = [
   ("queryloop", Model.entry_queryloop);
   ("stages", Model.entry_stages);
   ("vss", Model.entry_vss);
-  ("bn", Model.entry_bn);
+  ("bn", Model.entry_bn2);
+  ("evm", Model.entry_evm);
 ]
